@@ -5,6 +5,7 @@ CONSTANTS
   DocVars = @DOC_VARS@
   Keys = @KEYS@
   MaxPairs = @MAXPAIRS@
+  Junk = @JUNK@
 INIT Init
 NEXT Next
 INVARIANTS PostOK Documented Emit
